@@ -32,6 +32,10 @@ pub struct Iso {
 }
 
 impl Iso {
+    /// Everything the call wrote: through the log seam and by any other route to fd 1 / fd 2.
+    pub fn out(&self) -> String {
+        format!("{}{}", self.emitted, self.raw)
+    }
     pub fn to_json(&self) -> Value {
         json!({"res": self.res.to_json(), "emitted": self.emitted, "emits": self.emits, "steps": self.steps, "raw": self.raw})
     }
@@ -152,7 +156,17 @@ pub const ISO_STEP_CAP: u64 = 15_000;
 /// Wall-clock backstop for one isolated evaluation (a real clock, used only to turn a hang into an answer).
 const ISO_TIMEOUT_MS: i32 = 20_000;
 
-fn serve_one(op: &Op, stack_kb: usize) -> Iso {
+/// Make getrandom() in this process a seeded stream (only if the interposer is loaded).
+pub fn seed_os_randomness(seed: u64) {
+    let name = std::ffi::CString::new("simio_ambient").unwrap();
+    let sym = unsafe { libc::dlsym(libc::RTLD_DEFAULT, name.as_ptr()) };
+    if !sym.is_null() {
+        let f: extern "C" fn(i64, i64, i32, u64) = unsafe { std::mem::transmute(sym) };
+        f(0, 0, 1, seed);
+    }
+}
+
+fn serve_one(op: &Op, stack_kb: usize, rand_seed: u64) -> Iso {
     let (rfd, wfd) = pipe();
     let pid = unsafe { libc::fork() };
     assert!(pid >= 0, "fork failed");
@@ -163,6 +177,9 @@ fn serve_one(op: &Op, stack_kb: usize) -> Iso {
             let cap = memfd("iso-raw");
             libc::dup2(cap, 1);
             libc::dup2(cap, 2);
+            // OS randomness is a seeded stream: an answer that depends on it (hash iteration order)
+            // is the same on every replay, and differs between the two seeds the stability check uses
+            seed_os_randomness(rand_seed);
             let (res, emitted, emits, steps) = eval_here(op, stack_kb);
             let _ = std::io::stdout().flush();
             let raw = read_fd_all(cap);
@@ -236,7 +253,8 @@ fn server_loop(mut rx: File, mut tx: File) -> ! {
             Some(o) => o,
             None => unsafe { libc::_exit(3) },
         };
-        let iso = serve_one(&op, stack_kb);
+        let rand_seed = req.get("rand_seed").and_then(|v| v.as_u64()).unwrap_or(0x5eed_0001);
+        let iso = serve_one(&op, stack_kb, rand_seed);
         let bytes = serde_json::to_vec(&iso.to_json()).unwrap();
         if write_frame(&mut tx, &bytes).is_err() {
             unsafe { libc::_exit(0) }
@@ -278,9 +296,9 @@ impl Oracle {
         }
     }
 
-    fn ask(&mut self, op: &Op, stack_kb: usize) -> Iso {
+    fn ask(&mut self, op: &Op, stack_kb: usize, rand_seed: u64) -> Iso {
         self.forks += 1;
-        let req = json!({"op": op.to_json(), "stack_kb": stack_kb});
+        let req = json!({"op": op.to_json(), "stack_kb": stack_kb, "rand_seed": rand_seed});
         write_frame(&mut self.tx, &serde_json::to_vec(&req).unwrap()).expect("oracle request");
         let frame = read_frame(&mut self.rx).expect("oracle answer").expect("oracle closed");
         Iso::from_json(&serde_json::from_slice::<Value>(&frame).expect("oracle json")).expect("oracle iso")
@@ -293,14 +311,14 @@ impl Oracle {
         if let Some(v) = self.memo.get(&key) {
             return v.clone();
         }
-        let iso = Arc::new(self.ask(op, stack_kb));
+        let iso = Arc::new(self.ask(op, stack_kb, 0x5eed_0001));
         self.memo.insert(key, iso.clone());
         iso
     }
 
     /// A second, un-memoised isolated evaluation (for the oracle-stability check).
     pub fn requery(&mut self, op: &Op, stack_kb: usize) -> Iso {
-        self.ask(op, stack_kb)
+        self.ask(op, stack_kb, 0x5eed_0002)
     }
 
     pub fn memo_len(&self) -> usize {
